@@ -319,7 +319,7 @@ pub fn init_strategy() -> BoxedStrategy<InitC> {
 }
 
 pub fn op_strategy(max_abs: u32) -> BoxedStrategy<COp> {
-    let k = prop_oneof![1 => Just(0u16), 3 => 1u16..=130, 1 => prop::sample::select(vec![32u16, 63, 64, 65, 128, 1024, 1088]), 2 => 0u16..=3000];
+    let k = prop_oneof![1 => Just(0u16), 3 => 1u16..=130, 1 => crate::gen::select(vec![32u16, 63, 64, 65, 128, 1024, 1088]), 2 => 0u16..=3000];
     prop_oneof![
         10 => hist::size(max_abs).prop_map(COp::Update),
         1 => Just(COp::UpdateNull),
